@@ -37,19 +37,19 @@ CLAIMED = {
              text="Histories over several versions of a theory with builds killed before their k-th file-system mutation or in the middle of the k-th write (k enumerated for short histories), and with every kind of rustc failure on every component; after every successful build the complete output and component trees are compared with a clean build; no-op builds must not touch the file system.",
              note="Crash = process death between two file-system calls of the compiler (and inside rustc's output write); page-cache loss is not modelled. A stand-in for rustc produces byte-comparable libraries.", ref="3/C12"),
  "C13": dict(level="exploration", technique="differential testing of repeated compilations (threads, directories, cwd, environment) with byte comparison",
-             text="Each program is compiled 12 times (module/component; repeat; RAYON_NUM_THREADS 1/2/3/16; different absolute and relative directories; different environment) and all generated files and digests are compared byte for byte.",
+             text="Each program is compiled 12 times (module/component; repeat; RAYON_NUM_THREADS 1/2/3/16; different absolute and relative directories; different environment) and all generated files and digests are compared byte for byte. Modules derived from the full surface grammar (models, member types, morphisms) are compiled under the same variants.",
              note="Component libraries are produced by a deterministic stand-in for rustc.", ref="3/C13"),
  "C15": dict(level="exploration", technique="property-based testing of enum destructuring + static API scan + rejected mutants",
              text="After every close every id of every enum type is destructured (<enum>_cases and <enum>_case) and re-constructed; the emitted API is scanned for element constructors that bypass constructors; mutant rules defining non-constructor enum terms must be rejected.",
              note="Histories create enum elements only through constructor applications because the API offers nothing else.", ref="3/C15"),
  "C16": dict(level="exploration", technique="property-based testing: generated programs; (static) executable predicate over the emitted rule functions for all 2^n new/old labellings per family; (dynamic) generated API histories, the emitted rule functions of one iteration executed into fresh deltas and the multiset of enumerated matches compared with a naive nested-loop enumeration over the dumped new/old tables",
-             text="Static: for every generated program the emitted sub-rule families are parsed (flat-rule comment and index fields read per premise position) and every new/old labelling is checked to be admitted by exactly one sub-rule (none for all-old). Dynamic: on states reached by generated histories (before closes, inside partially run close_until, at the end) every rule is run once into a fresh ModelDelta; every match with a new tuple must be pushed exactly once and no all-old match at all.",
+             text="Static: for every generated program the emitted sub-rule families are parsed (flat-rule comment and index fields read per premise position) and every new/old labelling is checked to be admitted by exactly one sub-rule (none for all-old). Dynamic: on states reached by generated histories (before closes, inside partially run close_until, at the end) every rule is run once into a fresh ModelDelta; every match with a new tuple must be pushed exactly once and no all-old match at all. The static part also runs on modules derived from the full surface grammar (member relations, morphism rules).",
              note="Atoms and conclusions of a family are read from the flat-rule comments (whether the source rule was lowered correctly is C01/C02). Rules with empty premise and premise atoms the judge cannot interpret are skipped and counted.", ref="3/C16 and 11.2"),
  "C17": dict(level="exploration", technique="property-based testing of model programs against a reference chase with inheritance spelled out as rules (isomorphism after every close)",
              text="Generated programs with one model declaration and rules over member atoms; generated acyclic morphism graphs, member/global facts and schedules (morphism rows, facts and closes interleaved); after every close the model must be closed and isomorphic to the reference chase in which inheritance along morphisms is an ordinary rule.",
              note="Member relations range over global types only; morphism graphs acyclic by construction; the trigger of the recorded finding (morphism rows after a close that saw facts) is excluded from generation and demonstrated by a replay.", ref="3/C17"),
  "C19": dict(level="exploration", technique="text comparison of module vs component outputs + differential execution of generated histories on both builds",
-             text="Component sources are compared with the rule modules of the module build, environment structs/signatures/link names on both sides of the boundary are compared, and generated histories must give byte-identical transcripts on both drivers.",
+             text="Component sources are compared with the rule modules of the module build, environment structs/signatures/link names on both sides of the boundary are compared, and generated histories must give byte-identical transcripts on both drivers. The text comparison also runs on modules derived from the full surface grammar (models, member types, morphisms; stand-in rustc).",
              note="Real rustc builds the component libraries.", ref="3/C19"),
  "C20": dict(level="exploration", technique="differential execution: same script in three fresh processes with different layouts/environments, byte-identical transcripts",
              text="Every generated history is executed three times in fresh processes (ASLR, environment size, allocator settings, stack size) and complete transcripts including private index dumps are compared.",
